@@ -67,6 +67,9 @@ Metavar(i, m) ==
 MoveParser ==        \* the parser object is move-constructed elsewhere and the old one destroyed
   /\ Ok("MoveParser", <<>>, 0) /\ UNCHANGED <<objs, groups>> /\ moved' = TRUE
 
+MoveAssignParser ==  \* another parser object is move-assigned from this one, which is then destroyed
+  /\ Ok("MoveAssignParser", <<>>, 0) /\ UNCHANGED <<objs, groups>> /\ moved' = TRUE
+
 LettersClash == \E i, j \in Ids : i # j /\ objs[i].letter # "" /\ objs[i].letter = objs[j].letter
 
 TryParse ==          \* parse(): refuses with the developer error iff two options share a letter
@@ -78,7 +81,7 @@ Next ==
        \/ \E kind \in Kinds, g \in Groups, n \in Names : Declare(kind, g, n)
        \/ \E i \in Ids : (\E s \in LetterArgs : ShortName(i, s)) \/ (\E e \in EnvArgs : Env(i, e)) \/ (\E m \in MetaArgs : Metavar(i, m))
        \/ TryParse ) /\ UNCHANGED moved
-  \/ MoveParser
+  \/ MoveParser \/ MoveAssignParser
 Spec == Init /\ [][Next]_vars
 
 ------------------------------------------------------------------------------------------------------
@@ -96,7 +99,7 @@ Monotone ==
      /\ \A i \in Ids : objs'[i].name = objs[i].name /\ objs'[i].kind = objs[i].kind /\ objs'[i].grp = objs[i].grp
                        /\ (objs[i].letter # "" => objs'[i].letter = objs[i].letter)
      /\ (last'.out = "parser_error" => objs' = objs)]_vars
-MoveChangesNothing == [][last'.op = "MoveParser" => objs' = objs /\ groups' = groups /\ last'.out = "ok"]_vars
+MoveChangesNothing == [][last'.op \in {"MoveParser", "MoveAssignParser"} => objs' = objs /\ groups' = groups /\ last'.out = "ok"]_vars
 
 Abs == [objs |-> objs, groups |-> groups, moved |-> moved]
 EmitEdge == PrintT("EDGE " \o ToJson([from |-> Abs, act |-> last', to |-> [objs |-> objs', groups |-> groups', moved |-> moved']]))
